@@ -72,6 +72,8 @@ type specGen struct {
 	noXR   bool // no XR objects in this run
 	// generator kind of the object in a slot, where known statically (-1 otherwise)
 	slotKind []int
+	// seeds of the objects generated so far, per kind (source of near twins)
+	seedsByKind map[int][]uint64
 }
 
 func (g *specGen) newSlot() int {
@@ -85,7 +87,21 @@ func (g *specGen) newObj(kind int, list bool, shared bool) int {
 	if g.noXR && kind == kXR {
 		kind = kSR
 	}
-	return g.newObjSeed(kind, g.r.u64(), list, shared)
+	seed := g.r.u64()
+	if !list {
+		if prev := g.seedsByKind[kind]; len(prev) > 0 && g.r.chance(3) {
+			// near twin of an object this run already has: same seed, one leaf changed
+			slot := g.newObjSeed(kind, prev[g.r.intn(len(prev))], false, shared)
+			o := &g.s.Objects[len(g.s.Objects)-1]
+			o.Tweaks = append(o.Tweaks, g.r.u64())
+			return slot
+		}
+		if g.seedsByKind == nil {
+			g.seedsByKind = map[int][]uint64{}
+		}
+		g.seedsByKind[kind] = append(g.seedsByKind[kind], seed)
+	}
+	return g.newObjSeed(kind, seed, list, shared)
 }
 
 func (g *specGen) newObjSeed(kind int, seed uint64, list bool, shared bool) int {
@@ -395,11 +411,30 @@ func (g *specGen) history(t int) {
 			k = kXR
 		}
 		o := g.newObj(k, false, false)
+		if g.r.chance(4) {
+			// near-twin history: encode, then repeatedly change exactly one leaf and encode again
+			// (a memo keyed by a fingerprint, by identity or by length collides only with near twins)
+			b0 := g.newSlot()
+			g.emit(t, Op{K: opMarshal, A: o, B: b0})
+			for i, k := 0, 2+g.r.intn(5); i < k; i++ {
+				g.emit(t, Op{K: opMutate, A: o, B: -1, N: 1, Seed: g.r.u64()})
+				g.s.Plan.BadValue++
+				bi := g.newSlot()
+				g.emit(t, Op{K: opMarshal, A: o, B: bi})
+				if g.r.chance(2) {
+					g.readOnlyOps(t, o, 1, false)
+				}
+				if g.r.chance(3) {
+					g.decodeOps(t, bi)
+				}
+			}
+			return
+		}
 		n := 1 + g.r.intn(8)
 		for i := 0; i < n; i++ {
 			switch g.r.intn(6) {
 			case 0:
-				g.emit(t, Op{K: opMutate, A: o, B: -1, Seed: g.r.u64()})
+				g.emit(t, Op{K: opMutate, A: o, B: -1, N: g.r.intn(2), Seed: g.r.u64()}) // N=1: single-leaf tweak
 				g.s.Plan.BadValue++
 			case 1:
 				b := g.newSlot()
@@ -568,8 +603,8 @@ func genSpec(seed uint64, cold bool, opOnly bool, tier string) *RunSpec {
 						g.emit(t, Op{K: opUnmTyped, A: lastBytes, B: p, N: -1})
 					}
 				default:
-					if r.chance(8) {
-						g.emit(t, Op{K: opMutate, A: o, B: -1, Seed: r.u64()})
+					if r.chance(2) {
+						g.emit(t, Op{K: opMutate, A: o, B: -1, N: 1 - r.intn(4)/3, Seed: r.u64()}) // mostly single-leaf tweaks
 					} else {
 						g.emit(t, Op{K: opDSSRC, A: shared, B: -1})
 					}
@@ -646,9 +681,13 @@ func genSpec(seed uint64, cold bool, opOnly bool, tier string) *RunSpec {
 					b := g.newSlot()
 					g.emit(t, Op{K: opMarshal, A: o, B: b})
 					g.decodeOps(t, b)
-					if g.r.chance(4) {
-						g.emit(t, Op{K: opMutate, A: o, B: -1, Seed: g.r.u64()})
+					if g.r.chance(3) {
+						// whole-value overwrite, or a single-leaf tweak that makes this task's object a near twin
+						// of the equal-valued objects the other tasks hold
+						g.emit(t, Op{K: opMutate, A: o, B: -1, N: g.r.intn(2), Seed: g.r.u64() + uint64(t)})
 						g.readOnlyOps(t, o, 1, false)
+						b2 := g.newSlot()
+						g.emit(t, Op{K: opMarshal, A: o, B: b2})
 					}
 					g.r = save
 				case 2:
